@@ -7,7 +7,7 @@ import types
 
 from vf.cond import cond
 
-from .common import DictLoader, Environment as _Environment, LiquidError, concrete_int, drive, untraced
+from .common import DictLoader, Environment as _Environment, LiquidError, concrete_int, drive, tier, untraced
 
 import liquid2.builtin.filters.misc as _misc  # noqa: E402
 import liquid2.context as _ctxmod  # noqa: E402
@@ -251,3 +251,84 @@ def twin_clock(d1: int) -> bool:
     a = _observe(objs, "t4", False, 0)
     _NOW[0] = concrete_int(d1, 0, 2)
     return _observe(objs, "t4", False, 0) == a
+
+
+# ---- concurrent renders of shared Template objects -------------------------------------------------
+class _Yield:
+    def __await__(self):  # type: ignore[no-untyped-def]
+        yield None
+
+
+class SlowDrop(dict):
+    """Data whose async item access really suspends: one scheduling point per lookup."""
+
+    async def __getitem_async__(self, key):  # type: ignore[no-untyped-def]
+        await _Yield()
+        return dict.__getitem__(self, key)
+
+
+CONC_SRC = [
+    "{% case d.a %}{% when 1 %}[A {{ d.b }}]{% when 2 %}[B {{ d.b }}]{% when 3 %}[C {{ d.a }}]{% else %}[E {{ d.b }}]{% endcase %}",
+    "{% increment c %}{{ d.a }}{% cycle 'a', 'b' %}{{ d.b }}{% cycle 'a', 'b' %}{% increment c %}{{ c }}",
+    "{% for i in d.l limit: 1 %}{{ i }}{{ d.a }}{% endfor %}{% for i in d.l offset: continue %}{{ i }}{{ d.b }}{% endfor %}",
+    "{% if d.a == 1 %}{{ d.b }}X{% elsif d.a == 2 %}{{ d.b }}Y{% else %}Z{% endif %}{% unless d.b == 2 %}U{% endunless %}{{ d.a if d.b == 1 else d.a | plus: d.b }}",
+    "{% macro m, u %}({{ u }}{{ d.b }}){% endmacro %}{% call m, d.a %}{% render 'rp', v: d.a %}{% with q: d.a %}{{ q }}{{ d.b }}{% endwith %}{% capture k %}{{ d.a }}{% endcapture %}{{ k }}",
+    "{% extends 'base' %}{% block b %}[{{ d.a }}{{ block.super }}{{ d.b }}]{% endblock %}",
+    "{% liquid\n assign z = d.a\n echo z\n echo d.b\n%}{{ \"s${d.a}-${d.b}\" }}{% tablerow r in d.l cols: 2 %}{{ r }}{{ d.a }}{% endtablerow %}".replace("{% tablerow r in d.l cols: 2 %}", "{% for r in d.l %}").replace("{% endtablerow %}", "{% endfor %}"),
+]
+CONC_ENV = Environment(loader=DictLoader(dict(SOURCES)))
+CONC_T = [CONC_ENV.from_string(s) for s in CONC_SRC]
+for _t in CONC_T:
+    try:
+        _t.render(d={"a": 1, "b": 2, "l": [1, 2]}, x=0)
+    except Exception:  # noqa: BLE001
+        pass
+
+
+def _conc_ok(ts: list, datas: list, schedule: list) -> bool:
+    wants, coros = [], []
+    for ti, (va, vb) in zip(ts, datas):
+        t = CONC_T[ti]
+        try:
+            wants.append(("ok", t.render(d={"a": va, "b": vb, "l": [va, vb, 7]}, x=va)))
+        except LiquidError as e:
+            wants.append(("err", type(e).__name__))
+        coros.append(t.render_async(d=SlowDrop(a=va, b=vb, l=[va, vb, 7]), x=va))
+    results: list = [None] * len(coros)
+    live = list(range(len(coros)))
+    k = 0
+    while live:
+        if len(live) > 1:
+            pick = live[(schedule[k] if k < len(schedule) else 0) % len(live)]
+            k += 1
+        else:
+            pick = live[0]
+        try:
+            coros[pick].send(None)
+        except StopIteration as e:
+            results[pick] = ("ok", e.value)
+            live.remove(pick)
+        except LiquidError as e:
+            results[pick] = ("err", type(e).__name__)
+            live.remove(pick)
+    return results == wants
+
+
+CONC_PAIRS = [(i, i) for i in range(len(CONC_SRC))] + [(i, (i + 1) % len(CONC_SRC)) for i in range(len(CONC_SRC))]
+
+
+@cond(
+    pre=["1 <= va <= 3", "1 <= vb <= 3"],
+    timeout=400,
+    timeout_thorough=1500,
+    shard={"pair": list(range(len(CONC_PAIRS)))},
+    covers="two concurrent render_async() calls on shared Template objects (the same template twice, or two templates of one Environment) with different data, suspended at every drop lookup: for every schedule each render returns what it returns alone - nothing a render keeps while suspended (case subject, counters, cycles, loop positions, macro and block stacks, captures) is visible to the other",
+    bounds="14 template pairs (7 templates: case/when with awaits between the tests, counters+cycles, offset: continue, if/elsif/ternary, macro/render/with/capture, extends/block.super, liquid tag + template strings + loop) x data (a, b) in 1..3 x 1..3 for the first render (the second gets (b, a)) x 2^9 schedules (thorough 2^12)",
+    grid=lambda: [(p, a, b) + tuple(s if n % 2 == 0 else not s for n in range(12)) for p in range(len(CONC_PAIRS)) for a in (1, 2) for b in (2, 3) for s in (False, True)],
+)
+def s_concurrent(pair: int, va: int, vb: int, s0: bool, s1: bool, s2: bool, s3: bool, s4: bool, s5: bool, s6: bool, s7: bool, s8: bool, s9: bool, s10: bool, s11: bool) -> bool:
+    va, vb = concrete_int(va, 1, 3), concrete_int(vb, 1, 3)
+    bits = [s0, s1, s2, s3, s4, s5, s6, s7, s8] + ([s9, s10, s11] if tier() == "thorough" else [])
+    schedule = [1 if b else 0 for b in bits]
+    ts = list(CONC_PAIRS[pair])
+    return untraced(lambda: _conc_ok(ts, [(va, vb), (vb, va)], schedule))
